@@ -19,10 +19,10 @@ from ..core.framework import Ctx
 
 SPEC = {
     "modules": ["HC.Props.C09"],
-    "extracted": ["Guards", "Consts", "Excepts", "Atomic"],
-    "technique": "Lean 4 invariants over all op sequences of an executable model of the HTTP/2 send path (StreamBuffer, stream_send, send_task/_send_data split at its suspension points, _window_updated, _priority_updated, reset, abandon, close; unboundedly many streams; priority.next = any unblocked member): window accounting, no lost wake-up, stall-means-no-credit, END_STREAM once and last, a quiescence theorem (everything delivered where credit exists) and a strictly decreasing measure for the send task; tied by trace acceptance of the real H2Protocol's op sequences reconstructed from library taps, plus monitors on an independent h2 client and a raw frame ledger, on both workers end-to-end",
-    "level_text": "Proved in Lean for every interleaving of application writes (any sizes), send-task steps (whatever unblocked stream the priority tree returns; _send_data split at both transport flushes), WINDOW_UPDATE, SETTINGS (window up/down, frame size), PRIORITY, RST_STREAM, abandoned responses and connection close, for any number of streams: each DATA frame is at most the frame size, the stream window and the connection window as they stand (chunk computation extracted from _send_data); sent = credit - window on every stream and the connection, so sent never exceeds the credit granted (connection: always; stream: as long as INITIAL_WINDOW_SIZE is not lowered); pushed = sent + buffered + dropped, END_STREAM at most once and only when everything pushed was sent and nothing dropped (END_STREAM guard and StreamBuffer.complete extracted); a parked send task with has_data clear implies every tree member is blocked, and a blocked buffered stream has no credit; at every quiescent state of an open connection every opened, non-reset stream with positive stream and connection window has an empty buffer, all its bytes on the wire and END_STREAM iff the application ended the body (delivered as soon as the windows permit); a stream with data and credit keeps the send task non-quiescent whatever the other streams' states (stalled / reset siblings do not stop it); the send task's ops never set has_data, at deadlock its only op is park, parked with has_data clear it has none, and a measure strictly decreases on each of its ops (no spinning).  Tie: thousands of generated schedules of the real H2Protocol accepted op by op by the model with equal state projections (buffer, events, pusher, tree membership/blocked, windows, has_data, task pc), monitors on every run.",
-    "level_note": "Trusted: Lean kernel; the model HC/Proto/H2Send.lean (tied by trace acceptance); library assumptions sampled by the taps - h2's window arithmetic / which calls raise, priority.next returns an unblocked member of the tree and raises DeadlockError iff none (priority 2.0.0 violates this after a dependency loop is reprioritised: the real run is then only judged by the monitors, counted as libm_ghost in the evidence); Event.set/clear do not suspend (extracted from both worker_context.py); the transport serialises writes with a FIFO lock as both TCPServer.protocol_send do; the HTTP/2 client library cannot represent negative receive windows, so SETTINGS decreases that would make a window negative are not sent (the model covers them).",
+    "extracted": ["Guards", "Consts", "Excepts", "Atomic", "ReqGlue"],
+    "technique": "Lean 4 invariants over all op sequences of an executable model of the HTTP/2 send path (StreamBuffer, stream_send, send_task/_send_data split at its suspension points, _window_updated, _priority_updated, reset, abandon, close; unboundedly many streams; priority.next = any unblocked member): window accounting, no lost wake-up, stall-means-no-credit, END_STREAM once and last, a quiescence theorem (everything delivered where credit exists) and a strictly decreasing measure for the send task; the recovery from a priority tree that schedules a stream it does not know (tree rebuilt from the buffered streams, their blocked status extracted) as a step of an extended machine over which every invariant and theorem is proved; the receive side: upload credit conserved for padded and unpadded DATA frames (acknowledged amount and call counts extracted); tied by trace acceptance of the real H2Protocol's op sequences reconstructed from library taps, plus monitors on an independent h2 client and a raw frame ledger, on both workers end-to-end",
+    "level_text": "Proved in Lean for every interleaving of application writes (any sizes), send-task steps (whatever unblocked stream the priority tree returns; _send_data split at both transport flushes), WINDOW_UPDATE, SETTINGS (window up/down, frame size), PRIORITY, RST_STREAM, abandoned responses and connection close, for any number of streams: each DATA frame is at most the frame size, the stream window and the connection window as they stand (chunk computation extracted from _send_data); sent = credit - window on every stream and the connection, so sent never exceeds the credit granted (connection: always; stream: as long as INITIAL_WINDOW_SIZE is not lowered); pushed = sent + buffered + dropped, END_STREAM at most once and only when everything pushed was sent and nothing dropped (END_STREAM guard and StreamBuffer.complete extracted); a parked send task with has_data clear implies every tree member is blocked, and a blocked buffered stream has no credit; at every quiescent state of an open connection every opened, non-reset stream with positive stream and connection window has an empty buffer, all its bytes on the wire and END_STREAM iff the application ended the body (delivered as soon as the windows permit); a stream with data and credit keeps the send task non-quiescent whatever the other streams' states (stalled / reset siblings do not stop it); the send task's ops never set has_data, at deadlock its only op is park, parked with has_data clear it has none, and a measure strictly decreases on each of its ops (no spinning); all of this also over runs in which the priority library hands the send task a stream the tree does not know at any time (rebuild: every buffered stream is a member of the fresh tree and unblocked, nothing else changes); on the receive side every DATA frame - padded or not, for a live or an already completed stream - is acknowledged with exactly its flow-controlled length, so the client's upload windows are conserved over any sequence of frames.  Tie: thousands of generated schedules of the real H2Protocol accepted op by op by the model with equal state projections (buffer, events, pusher, tree membership/blocked, windows, has_data, task pc), monitors on every run.",
+    "level_note": "Trusted: Lean kernel; the model HC/Proto/H2Send.lean (tied by trace acceptance); library assumptions sampled by the taps - h2's window arithmetic / which calls raise, priority.next returns an unblocked member of the tree and raises DeadlockError iff none (priority 2.0.0 violates this after a dependency loop is reprioritised: a NON-MEMBER handed out is the modelled `rebuild` step, generated deterministically by the PRIORITY-loop corpus; a BLOCKED member handed out is not modelled - such a run is then only judged by the monitors, counted as libm_ghost_unmodelled in the evidence); how often a fresh PriorityTree can misbehave again is not modelled (each occurrence needs a client PRIORITY frame), so the no-spinning measure excludes the rebuild step - spinning through it is left to the monitors; Event.set/clear do not suspend (extracted from both worker_context.py); the transport serialises writes with a FIFO lock as both TCPServer.protocol_send do; the HTTP/2 client library cannot represent negative receive windows, so SETTINGS decreases that would make a window negative are not sent (the model covers them).",
     "rule": "distinct = (profile, initial window, stream count, application kinds, client action kinds, terminal event, schedule density); non-trivial = a stream stalled with data buffered, or more than one stream, or a reset / priority / settings event",
     "trusted": ["h2 4.4.1 (both roles), priority 2.0.0, hpack", "asyncio scheduling in the direct layer; asyncio and trio in the end-to-end layer"],
     "partial": [],
@@ -80,6 +80,9 @@ def corpus() -> List[dict]:
     for seed in range(4):
         out.append({"seed": seed, "density": 1.0, "trio_like": True, "initial_window": 65535, "profile": "corpus", "corpus": "F36", "actions": [
             {"do": "open", "sid": 1, "app": [{"start": 200}, {"body": 70000, "more": False}]}, {"do": "settle"}, {"do": "drain_all"}]})
+    # PRIORITY dependency loops with a transfer in progress when the tree is rebuilt (seeded C08-7); uploads in padded DATA frames (C09-8)
+    out += H.loop_corpus()
+    out += H.upload_corpus()
     return out
 
 
@@ -99,7 +102,7 @@ def check_direct(ctx: Ctx, scenarios: List[dict], prop: str = "C09") -> None:
             d = H.compare(res, model[k])
             if d is None:
                 ctx.traces_validated += 1
-                bad_hyp = [i for i, st in enumerate(model[k]["ok"]["steps"]) if st.get("ok") is False and (res["ghost_at"] is None or i < res["ghost_at"])]
+                bad_hyp = [i for i, st in enumerate(model[k]["ok"]["steps"]) if st.get("ok") is False and (res.get("unmodelled_at") is None or i < res["unmodelled_at"])]
                 if bad_hyp:
                     ctx.disagree("h2send: theorem hypothesis (park only at deadlock) does not hold on the implementation's trace", _case(sc), bad_hyp[:3], res["ops"][bad_hyp[0]])
             else:
@@ -137,11 +140,21 @@ def _count(ctx: Ctx, sc: dict, res: dict) -> None:
     if res["client"]["error"] and "shrunk below 0" in res["client"]["error"]:
         ctx.count("oracle_limit(h2 client cannot hold a negative receive window)", 1)
     if res["ghost_at"] is not None:
-        ctx.count("libm_ghost(priority.next returned a non-member)", 1)
+        ctx.count("libm_ghost(priority.next returned a non-member or a blocked member)", 1)
+    if res.get("unmodelled_at") is not None:
+        ctx.count("libm_ghost_unmodelled(priority.next returned a blocked member)", 1)
+    if res.get("rebuilds"):
+        ctx.count("tree_rebuilt(with a sender waiting on a buffered stream)",
+                  any(o["op"] == "rebuild" and any(st["hasBuf"] and st["pusher"] != "idle" for st in res["snaps"][k]["str"].values()) for k, o in enumerate(res["ops"])))
+    up = res.get("upload") or {}
+    if up.get("frames"):
+        ctx.count("upload.frames", "padded", sum(1 for f in up["frames"] if f[1] != f[2]))
+        ctx.count("upload.frames", "unpadded", sum(1 for f in up["frames"] if f[1] == f[2]))
+        ctx.count("upload.beyond_one_window(flow-controlled bytes > 65535)", sum(f[1] for f in up["frames"]) > 65535)
     kinds = sorted({a["do"] for a in sc["actions"] if a["do"] not in ("settle", "turns", "open", "drain_all")})
     if stalled or len(res["apps"]) > 1 or kinds:
         ctx.distinct([sc.get("profile"), sc.get("initial_window"), len(res["apps"]), sorted(s["kind"] for s in (sc.get("apps") or {}).values()), kinds,
-                      sc.get("terminal"), sc.get("density"), stalled, waited])
+                      sc.get("terminal"), sc.get("density"), stalled, waited, bool(res.get("rebuilds")), len(up.get("frames") or []) // 50])
     ctx.sample({"profile": sc.get("profile"), "initial_window": sc.get("initial_window"), "actions": [a["do"] for a in sc["actions"]][:20],
                 "ops": len(res["ops"]), "streams": len(res["apps"])}, cap=3)
 
@@ -284,19 +297,105 @@ def check_e2e(ctx: Ctx, cases: List[dict]) -> None:
                     ctx.violation("flow_control_exceeded", cc, {"sid": sid, "frames": v["frames"][:5]}, {**sig, "kind": "frame_size"})
 
 
+# ------------------------------------------------------------------------------------------------------------
+# layer 2, receive side: uploads in padded DATA frames through TCPServer on both workers
+# ------------------------------------------------------------------------------------------------------------
+def e2e_upload_cases() -> List[dict]:
+    return [{"layer": "e2e_upload", "frames": [[1, 255]] * 320, "reads": True},                    # 81 920 flow-controlled bytes, 320 of payload
+            {"layer": "e2e_upload", "frames": [[16000, 255]] * 9 + [[0, 0]] * 3, "reads": True},
+            {"layer": "e2e_upload", "frames": [[100, 200], [16384, None], [0, 255]] * 30, "reads": False}]   # the application answers without reading
+
+
+def run_e2e_upload(case: dict, worker: str) -> dict:
+    app = ([["recv_body"]] if case["reads"] else []) + [["send", {"type": "http.response.start", "status": 200, "headers": []}],
+                                                       ["send", {"type": "http.response.body", "body": b"done"}]]
+
+    async def client(io):
+        c = C.H2Client()
+        await c.pump(io)
+        sid = c.conn.get_next_available_stream_id()
+        c.conn.send_headers(sid, C.h2_headers("POST", "/up"), end_stream=False)
+        c._st(sid)
+        await c.pump(io)
+        sent = flow = 0
+        stalled = None
+        for k, (n, pad) in enumerate(case["frames"]):
+            need = n + (0 if pad is None else pad + 1)
+            for attempt in (0, 1, 2):
+                st = c.conn.streams.get(sid)
+                if st is None or st.closed:
+                    break
+                if c.conn.local_flow_control_window(sid) >= need:
+                    c.conn.send_data(sid, b"u" * n, end_stream=(k == len(case["frames"]) - 1), pad_length=pad)
+                    await io.send(c.out())
+                    c.receive(io.take())
+                    sent += 1
+                    flow += need
+                    break
+                await io.sleep(0.2)          # the server is at rest: every WINDOW_UPDATE it will send for what it has is in
+                c.receive(io.take())
+            else:
+                stalled = {"frame_index": k, "frame": need, "client_stream_window": c.conn.streams[sid].outbound_flow_control_window,
+                           "client_conn_window": c.conn.outbound_flow_control_window, "flow_controlled_bytes_sent": flow}
+                break
+            st = c.conn.streams.get(sid)
+            if st is None or st.closed:
+                break
+        await io.sleep(0.5)
+        await c.pump(io)
+        return {"summary": c.summary(), "sid": sid, "sent": sent, "flow": flow, "stalled": stalled,
+                "conn_window": c.conn.outbound_flow_control_window}
+
+    return _runner(worker)({"keep_alive_timeout": 30}, "h2", client, [app], tail=3)
+
+
+def check_e2e_upload(ctx: Ctx, cases: List[dict]) -> None:
+    for case in cases:
+        for worker in ("asyncio", "trio"):
+            res = run_e2e_upload(case, worker)
+            ctx.evaluations += 1
+            ctx.count("e2e.upload", worker)
+            sig = {"layer": "e2e_upload", "worker": worker}
+            cc = {**case, "worker": worker}
+            if res.get("stuck_session"):
+                ctx.violation("spinning", cc, "the session never reported (event loop stuck)", {**sig, "error": "stuck"})
+                continue
+            cr = res.get("client_result")
+            if res["error"] or res["loop_errors"] or not cr:
+                ctx.violation("send_task_died", cc, {"error": res["error"], "loop": res["loop_errors"], "client": res.get("client_error")}, {**sig, "error": str(res["error"])})
+                continue
+            ctx.distinct(["e2e_upload", worker, len(case["frames"]), case["reads"]])
+            if cr["stalled"]:
+                ctx.violation("upload_stalled_for_want_of_credit", cc, cr["stalled"], {**sig, "kind": "client_window_exhausted"})
+                continue
+            v = cr["summary"]["streams"].get(str(cr["sid"]), {})
+            if case["reads"] and not (v.get("ended") and v.get("data") == "done"):
+                ctx.violation("not_delivered_with_windows_open", cc, {"sid": cr["sid"], "got": v.get("data"), "ended": v.get("ended")}, sig)
+            # conservation as the client sees it: what is still missing from its connection window is at most what h2 (server
+            # role) may hold back before it announces a WINDOW_UPDATE (half the window)
+            if 65535 - cr["conn_window"] > 65535 // 2 + 1:
+                ctx.violation("upload_credit_not_returned", cc, {"client_conn_window": cr["conn_window"], "flow_controlled_bytes_sent": cr["flow"]},
+                              {**sig, "kind": "connection_window_not_restored"})
+
+
 def run(ctx: Ctx) -> None:
     H.limit_memory()
     rng = ctx.rng
     grid = grid_scenarios()
     scenarios = corpus() + (grid if ctx.thorough else grid[::3])
+    scenarios += [H.gen_loop_scenario(rng) for _ in range(ctx.budget(150, 1500))]
+    scenarios += [H.gen_upload_scenario(rng) for _ in range(ctx.budget(40, 400))]
     scenarios += [H.gen_scenario(rng, "flow") for _ in range(ctx.budget(2400, 14000))]
     for lo in range(0, len(scenarios), 250):
         check_direct(ctx, scenarios[lo: lo + 250], "C09")
+    check_e2e_upload(ctx, e2e_upload_cases())
     check_e2e(ctx, [gen_e2e(rng) for _ in range(ctx.budget(24, 250))])
 
 
 def replay(ctx: Ctx, case: dict) -> None:
     if case.get("layer") == "direct":
         check_direct(ctx, [case["scenario"]], "C09")
+    elif case.get("layer") == "e2e_upload":
+        check_e2e_upload(ctx, [{k: v for k, v in case.items() if k != "worker"}])
     else:
         check_e2e(ctx, [{k: v for k, v in case.items() if k != "worker"}])
